@@ -296,12 +296,15 @@ def gen_expr(rng, depth, ops):
 
 
 def gen_cond(rng, depth, ops):
-    if depth == 0 or rng.random() < 0.4:
-        return ('cmp', rng.choice(list(PCMPS)), gen_expr(rng, 2, ops), gen_expr(rng, 1, ops))
+    """('cmp', op, a, b) | ('not', c) | ('boolop', 'and'|'or', [c1, .., cn]) with n in 2..5, as ast.BoolOp"""
+    if depth == 0 or rng.random() < 0.3:
+        return ('cmp', rng.choice(list(PCMPS)), gen_expr(rng, rng.choice([0, 1, 2]), ops), gen_expr(rng, 1, ops))
     r = rng.random()
     if r < 0.04:
         return ('not', gen_cond(rng, depth - 1, ops))
-    return ('and' if r < 0.52 else 'or', gen_cond(rng, depth - 1, ops), gen_cond(rng, depth - 1, ops))
+    n = rng.choice([2, 2, 3, 3, 3, 4, 5])
+    return ('boolop', 'and' if r < 0.52 else 'or',
+            [gen_cond(rng, depth - 1 if rng.random() < 0.5 else 0, ops) for _ in range(n)])
 
 
 def e_src(e):
@@ -315,13 +318,15 @@ def e_src(e):
     return '(%s %s %s)' % (e_src(e[2]), PBIN_SYM[e[1]], e_src(e[3]))
 
 
-def c_src(c):
+def c_src(c, top=True):
+    """operands that are themselves chains are parenthesised so that the nesting survives parsing"""
     k = c[0]
     if k == 'cmp':
         return '%s %s %s' % (e_src(c[2]), PCMPS[c[1]], e_src(c[3]))
     if k == 'not':
-        return '(not %s)' % c_src(c[1])
-    return '(%s %s %s)' % (c_src(c[1]), k, c_src(c[2]))
+        return '(not %s)' % c_src(c[1], False)
+    txt = (' %s ' % c[1]).join(c_src(x, False) for x in c[2])
+    return txt if top else '(%s)' % txt
 
 
 def e_coq(e):
@@ -341,7 +346,7 @@ def c_coq(c):
         return '(PCmp P%s %s %s)' % (c[1], e_coq(c[2]), e_coq(c[3]))
     if k == 'not':
         return '(PNot %s)' % c_coq(c[1])
-    return '(%s %s %s)' % ('PAnd' if k == 'and' else 'POr', c_coq(c[1]), c_coq(c[2]))
+    return '(PBoolOp %s [%s])' % ('true' if c[1] == 'and' else 'false', '; '.join(c_coq(x) for x in c[2]))
 
 
 PARAMS = ', '.join('x%d: int' % i for i in range(NVARS))
@@ -441,7 +446,7 @@ def expr_cases(ctx, n_expr, n_cond, n_env):
         ops = sup if rng.random() < 0.8 else PBINS
         is_cond = k >= n_expr
         if is_cond:
-            c = gen_cond(rng, 2, ops)
+            c = gen_cond(rng, rng.choice([1, 2, 2, 3]), ops)
             src = 'def f(%s) -> int:\n    if %s:\n        return 1\n    return 0\n' % (PARAMS, c_src(c))
             term = 'ctree_outcome lowcfg_cur %%s %s' % c_coq(c)
         else:
@@ -478,6 +483,7 @@ class FGen:
         self.nloop = 0
         self.features = set()
         self.loopvars = []
+        self.forvars = []
 
     def atom(self):
         r = self.rng.random()
@@ -495,11 +501,16 @@ class FGen:
             self.features.add('floordiv')
         return '(%s %s %s)' % (self.expr(depth - 1), op, self.expr(depth - 1))
 
-    def cond(self, depth):
-        if depth == 0 or self.rng.random() < 0.55:
+    def cond(self, depth, top=True):
+        if depth == 0 or self.rng.random() < 0.45:
             return '%s %s %s' % (self.expr(1), self.rng.choice(list(PCMPS.values())), self.expr(1))
         self.features.add('boolop')
-        return '(%s %s %s)' % (self.cond(depth - 1), self.rng.choice(['and', 'or']), self.cond(depth - 1))
+        n = self.rng.choice([2, 2, 3, 3, 4, 5])
+        if n >= 3:
+            self.features.add('chain3+')
+        op = self.rng.choice(['and', 'or'])
+        txt = (' %s ' % op).join(self.cond(depth - 1 if self.rng.random() < 0.4 else 0, False) for _ in range(n))
+        return txt if top else '(%s)' % txt
 
     def block(self, depth, in_loop, ind):
         out = []
@@ -529,20 +540,38 @@ class FGen:
                 rg = 'range(%s, %s)' % (self.rng.choice(['0', '1', 'n', '2']), self.rng.choice(['n', '4', '(n + 2)']))
             out = [p + 'for %s in %s:' % (v, rg)]
             self.loopvars.append(v)
+            self.forvars.append(v)
             out += self.block(depth - 1, True, ind + 4)
+            self.forvars.pop()
             self.loopvars.pop()
             return out
         if depth > 0 and r < 0.46 and self.nloop < 3:
             self.nloop += 1
             self.features.add('while')
             k = 'k%d' % self.nloop
-            out = [p + '%s = 0' % k, p + 'while %s < %s:' % (k, self.rng.choice(['n', '3', '5'])),
+            extra = ' and (%s)' % self.cond(1, True) if self.rng.random() < 0.35 else ''
+            out = [p + '%s = 0' % k, p + 'while %s < %s%s:' % (k, self.rng.choice(['n', '3', '5']), extra),
                    p + '    %s += 1' % k]
             self.loopvars.append(k)
             out += self.block(depth - 1, True, ind + 4)
             self.loopvars.pop()
             return out
-        if in_loop and r < 0.56:
+        if self.forvars and r < 0.5:
+            # CPython: rebinding the loop variable does not change the iteration sequence
+            self.features.add('loopvar-assign')
+            v = self.forvars[-1]
+            k = self.rng.random()
+            asg = p + '%s = %s' % (v, self.rng.choice(['%s + %s' % (v, self.atom()), '%s * 2' % v, self.expr(1), '%s - 1' % v]))
+            if k < 0.35:
+                return [asg]
+            if k < 0.6:
+                return [p + 'if %s:' % self.cond(1), '    ' + asg]
+            if k < 0.8:
+                self.features.add('continue')
+                return [asg, p + 'if %s:' % self.cond(1), p + '    continue']
+            self.features.add('continue')
+            return [p + 'if %s:' % self.cond(1), '    ' + asg, p + '    continue']
+        if in_loop and r < 0.58:
             kw = self.rng.choice(['break', 'continue'])
             self.features.add(kw)
             return [p + 'if %s:' % self.cond(1), p + '    ' + kw]
